@@ -6,8 +6,12 @@
   interpreter of such lists; `startX` / `shutdownX` are the two methods as the source has them NOW.  Props/C14 proves
   that they are equal to the hand-written specification machine `Lifecycle.start` / `Lifecycle.shutdown` for every
   state and fault assignment (`c14_start_translated`, `c14_shutdown_translated`), so every C14 theorem about histories
-  holds of the translated methods — and dropping, adding or moving a statement of either method (a shutdown step, the
-  `started` test, `trigger_handler.start()`, the place where a flag is set) breaks a proof obligation.
+  holds of the translated methods.  The STATE refinement alone sees only statements that touch the modelled state (the
+  two flags, `trigger_handler.start()`, `poll.start()`, the shutdown steps); the TRACE refinement (`c14_start_trace`,
+  `c14_shutdown_trace`: `tracePlan` = the specified call order) sees every statement and its position, so dropping,
+  adding or moving any statement of either method breaks a proof obligation.  `steps` is built outside the per-step
+  `try`: reading a plugin's `shutdown` attribute can fail (`Faults.attrUnreadable`), then `shutdownX` raises before any
+  step — the shutdown refinement is therefore `_partial` (hypothesis `Readable`), with a witness.
   Hand-written here: what each service call does to the model state (`primStep`: `trigger_handler.start()` is the
   translated `thStart`, `poll.start()` makes the timer thread alive, the others do not touch the modelled state) and
   what each entry of `steps` is (`Lifecycle.runStep`); both are compared with the real `Deep` by the driver.
@@ -45,6 +49,10 @@ def stepsOf (d : Deep) : List StepRef → List Step
   | .pollShutdown :: r => .pollShutdown :: stepsOf d r
   | .plugins :: r => d.plugins.map .plugin ++ stepsOf d r
 
+/-- building `steps` reads `plugin.shutdown` of every loaded plugin, outside any `try` -/
+def buildFails (f : Faults) (d : Deep) (refs : List StepRef) : Bool :=
+  refs.contains .plugins && d.plugins.any f.attrUnreadable
+
 /-- `for step in steps: try: step() except C: log`: with `except BaseException` nothing leaves the loop; with
     `except Exception` a step failing with a `BaseException`-class error ends it. -/
 def runLoop (catchAll : Bool) (f : Faults) : List Step → Deep → Deep × Bool
@@ -60,9 +68,45 @@ def execPlan (sf : StartFaults) (f : Faults) : List LStmt → Deep → Deep × B
   | .set fld v :: rest, d => execPlan sf f rest (fld.put d v)
   | .prim p :: rest, d => if p != .log && sf p then (d, true) else execPlan sf f rest (primStep d p)
   | .stepsLoop refs catchAll :: rest, d =>
+    -- building the list (`steps += [plugin.shutdown for plugin in self.config.plugins]`) happens BEFORE the loop and
+    -- outside its `try`: reading the `shutdown` attribute of a plugin can fail, then the method raises here
+    if buildFails f d refs then (d, true) else
     let r := runLoop catchAll f (stepsOf d refs) d
     if r.2 then r else execPlan sf f rest r.1
   | .opaque _ :: _, d => (d, true)
+
+/-! ### the effect trace: every statement in the order it is executed
+
+  Final-state equality cannot see a dropped call that does not touch the modelled state, nor a moved one.  `tracePlan`
+  lists what `execPlan` does, statement by statement: every service call (also the five whose effect is outside the
+  modelled state), every flag assignment, every shutdown step attempted, every early return / raise. -/
+
+inductive PEv where
+  | prim (p : Prim)
+  | set (f : Fld) (v : Bool)
+  | step (s : Step)
+  | ret                       -- early `return`
+  | raised                    -- the method raises here
+deriving DecidableEq, Repr
+
+/-- the steps the loop attempts: all of them when isolated, up to the first escaping failure otherwise -/
+def loopTrace (catchAll : Bool) (f : Faults) : List Step → Deep → List PEv
+  | [], _ => []
+  | s :: rest, d =>
+    let (d', raised) := runStep f d s
+    if raised && !(catchAll || !f.pluginBase) then [.step s, .raised] else .step s :: loopTrace catchAll f rest d'
+
+def tracePlan (sf : StartFaults) (f : Faults) : List LStmt → Deep → List PEv
+  | [], _ => []
+  | .retIf fld neg pre :: rest, d =>
+    if (fld.get d != neg) then pre.map .prim ++ [.ret] else tracePlan sf f rest d
+  | .set fld v :: rest, d => .set fld v :: tracePlan sf f rest (fld.put d v)
+  | .prim p :: rest, d => if p != .log && sf p then [.prim p, .raised] else .prim p :: tracePlan sf f rest (primStep d p)
+  | .stepsLoop refs catchAll :: rest, d =>
+    if buildFails f d refs then [.raised] else
+    let r := runLoop catchAll f (stepsOf d refs) d
+    loopTrace catchAll f (stepsOf d refs) d ++ (if r.2 then [] else tracePlan sf f rest r.1)
+  | .opaque _ :: _, _ => [.raised]
 
 /-- `Deep.start` as translated, when the service calls in `sf` raise -/
 def startF (sf : StartFaults) (d : Deep) : Deep × Bool := execPlan sf default Extracted.DeepLC.startPlan d
@@ -70,6 +114,32 @@ def startF (sf : StartFaults) (d : Deep) : Deep × Bool := execPlan sf default E
 def startX (d : Deep) : Deep := (startF noStartFaults d).1
 /-- `Deep.shutdown` as translated -/
 def shutdownX (f : Faults) (d : Deep) : Deep × Bool := execPlan noStartFaults f Extracted.DeepLC.shutdownPlan d
+
+/-- what `Deep.start` does, in order -/
+def startTrace (sf : StartFaults) (d : Deep) : List PEv := tracePlan sf default Extracted.DeepLC.startPlan d
+/-- what `Deep.shutdown` does, in order -/
+def shutdownTrace (f : Faults) (d : Deep) : List PEv := tracePlan noStartFaults f Extracted.DeepLC.shutdownPlan d
+
+/-- SPECIFICATION of the call order of `Deep.start` (hand-written from the statement's reading of the method): nothing
+    when started; a warning when shut down before; otherwise plugins, resource, providers, resource stored, hooks,
+    connection, polling, and only then `started = True`. -/
+def startSpecTrace (d : Deep) : List PEv :=
+  if d.started then [.ret] else
+  if d.everShut then [.prim .log, .ret] else
+  [.prim .loadPlugins, .prim .resourceCreate, .prim .providers, .prim .setResource, .prim .thStart, .prim .grpcStart,
+   .prim .pollStart, .set .started true]
+
+/-- SPECIFICATION of the order of `Deep.shutdown` when every plugin's `shutdown` can be read: marked shut down first,
+    then the hooks, the drain, the poll timer, every plugin in load order — each attempted whatever failed before —,
+    and only then `started = False`. -/
+def shutdownSpecTrace (d : Deep) : List PEv :=
+  if !d.started then [.ret] else
+  [.set .everShut true, .step .thShutdown, .step .flush, .step .pollShutdown] ++ d.plugins.map (fun p => .step (.plugin p)) ++
+  [.prim .log, .set .started false]
+
+/-- every plugin's `shutdown` attribute can be read (hypothesis of the shutdown refinement; false ⇒ known finding
+    `C14/plugin-shutdown-attribute-unreadable`) -/
+def Readable (f : Faults) (d : Deep) : Prop := d.plugins.any f.attrUnreadable = false
 
 /-- histories over the translated methods -/
 def stepX (d : Deep) : Op → Deep
